@@ -502,7 +502,7 @@ def gen_cases(tier, seed):
         c['meta' if kind == 'data' else 'param'] = ex
         return c
 
-    reps = 12 if thorough else 2
+    reps = 12 if thorough else 4
     for sk in kinds:
         for kind in ('data', 'interest'):
             if sk == 'none' and kind == 'data':
